@@ -250,14 +250,20 @@ std::string to_string(string const &tstr)
     {
         if (elem.glyph_.charset_ == charset::utf8)
         {
+            // The first byte always belongs to the glyph (U+0000 is the
+            // single byte NUL, which is also what a terminal is sent); the
+            // remaining storage is zero-padded.
+            bool first = true;
+
             for (auto const &ch : elem.glyph_.ucharacter_)
             {
-                if (ch == 0)
+                if (ch == 0 && !first)
                 {
                     break;
                 }
 
                 result += static_cast<char>(ch);
+                first = false;
             }
         }
         else
